@@ -26,6 +26,15 @@ Definition l_type (d : dt) (t : tensor) : tensor := if is_float (tdt t) then l_t
 Definition l_detach (t : tensor) : tensor := T 0 (tvl t) (tdt t) false.
 
 Definition guarded (c : cls) : bool := cls_eqb c CInterpolated || cls_eqb c CMasked || cls_eqb c CIdentity.
+(* classes whose dtype / device are keyword arguments that to() rewrites: what is not requested is kept *)
+Definition keeps_dt (c : cls) : bool := cls_eqb c CIdentity || cls_eqb c CZero.
+Definition nd_to (c : cls) (d : option dt) (dev : option nat) (nd : list (Z * value)) : list (Z * value) :=
+  if keeps_dt c then
+    match keep_or k_dtype (dt_val d) nd, keep_or k_device (dev_val dev) nd with
+    | Some vdt, Some vdev => set_key k_dtype vdt (set_key k_device vdev nd)
+    | _, _ => nd
+    end
+  else nd.
 
 Section WithDef.
 Variable defdt : dt.
@@ -63,12 +72,12 @@ Fixpoint conv_to (d : option dt) (dev : option nat) (a : arg) : arg :=
                             | _ => match dtype_of x, d with
                                    | Some da, Some d' => if Bool.eqb (is_float da) (is_float d') then conv_to d dev x
                                                          else conv_to None dev x
-                                   | _, _ => strip x
+                                   | _, None => conv_to None dev x
+                                   | None, Some _ => strip x
                                    end
                             end
                        else conv_to d dev x) :: go r (S i)
-                  end) ch 0) dn
-            (if cls_eqb c CIdentity then set_key k_dtype (dt_val d) (set_key k_device (dev_val dev) nd) else nd) (dflt c)
+                  end) ch 0) dn (nd_to c d dev nd) (dflt c)
       else if cls_eqb c CCat then
         (* Cat: only the output device is recorded, then .type(dtype) *)
         AOp c ((fix go (l : list arg) : list arg :=
@@ -86,6 +95,14 @@ Fixpoint conv_to (d : option dt) (dev : option nat) (a : arg) : arg :=
                           end
                       end :: go r
                   end) ch) dn (set_key k_output_device (dev_val dev) nd) (dflt c)
+      else if cls_eqb c CPermutation then
+        (* Permutation: the index tensors are moved, never cast; only the nominal dtype changes *)
+        AOp c ((fix go (l : list arg) : list arg := match l with [] => [] | x :: r => strip x :: go r end) ch) dn nd
+            (perm_attrs d (dflt c))
+      else if cls_eqb c CZero then
+        (* Zero: rebuilt from its sizes with the requested (or kept) dtype / device keywords *)
+        AOp c ((fix go (l : list arg) : list arg := match l with [] => [] | x :: r => strip x :: go r end) ch) dn
+            (nd_to c d dev nd) (dflt c)
       else
         AOp c ((fix go (l : list arg) : list arg := match l with [] => [] | x :: r => conv_to d dev x :: go r end) ch)
             dn nd (dflt c)
@@ -102,7 +119,7 @@ Definition conv_type_arg (d : dt) (x : arg) : arg :=
 Definition conv_type (d : dt) (o : arg) : arg :=
   match o with
   | AOp c ch dn nd at_ =>
-      if cls_eqb c CIdentity then AOp c ch dn (set_key k_dtype (VDtype d) nd) (dflt c)
+      if keeps_dt c then AOp c (strip_list ch) dn (set_key k_dtype (VDtype d) nd) (dflt c)
       else if cls_eqb c CTransposePermutation then AOp c (strip_list ch) dn nd (set_key k_dtype (VDtype d) at_)
       else AOp c (map (conv_type_arg d) ch) dn nd (dflt c)
   | _ => o
@@ -117,6 +134,7 @@ Definition conv (m : meth) (o : arg) : arg :=
   end.
 
 (* ---- side conditions *)
+Definition is_index (x : arg) : bool := match x with ATensor t => negb (is_float (tdt t)) | _ => false end.
 (* a.to(<floating dtype>) reaches no integer / boolean tensor through an unguarded position, and every operator in the
    tree reports a floating dtype (so that the guards of the overrides and of type() take the casting branch) *)
 Fixpoint to_safe (a : arg) : bool :=
@@ -135,6 +153,8 @@ Fixpoint to_safe (a : arg) : bool :=
       else if cls_eqb c CCat then
         (fix go (l : list arg) : bool :=
            match l with [] => true | x :: r => match x with ATensor _ => true | _ => to_safe x end && go r end) ch
+      else if cls_eqb c CPermutation then forallb is_index ch     (* index tensors: its to() moves, never casts them *)
+      else if cls_eqb c CZero then forallb (fun x => negb (is_diff x)) ch     (* its arguments are the integer sizes *)
       else (fix go (l : list arg) : bool := match l with [] => true | x :: r => to_safe x && go r end) ch
   end.
 Definition to_safe_sub (x : arg) : bool := match x with ATensor _ => true | _ => to_safe x end.
@@ -150,6 +170,8 @@ Definition safeb (m : meth) (o : arg) : bool :=
           forallb to_safe_sub ch &&
           (* the type() overrides of Identity / TransposePermutation do not look at tensor arguments: there are none *)
           (if cls_eqb c CIdentity || cls_eqb c CTransposePermutation then match ch with [] => true | _ => false end else true)
+          (* ... nor does the one of Zero (its arguments are the integer sizes) *)
+          && (if cls_eqb c CZero then forallb (fun x => negb (is_diff x)) ch else true)
       | _ => true
       end
   | _ => true
